@@ -1415,3 +1415,75 @@ Proof.
       destruct (N.eqb_spec (or_replacement oc) delim); [congruence|].
       destruct (N.eqb_spec (or_replacement oc) 92); [congruence|reflexivity].
 Qed.
+
+(* ---- numbers: shape of the token (partial; the value statement is not proved) ---- *)
+Definition all_digits (l : list N) : Prop := Forall (fun b => is_digit b = true) l.
+
+Lemma num_step_digits lz st a b st' a' : num_step lz st a b = NGo st' a' ->
+  all_digits (n_digits a) -> all_digits (n_digits a').
+Proof.
+  intros H D. unfold num_step in H.
+  destruct st as [us| |us| | |us];
+  repeat match type of H with
+  | (if ?c then _ else _) = _ => let E := fresh "E" in destruct c eqn:E
+  end; inversion H; subst; cbn [n_digits push_digit set_expl set_sign]; try exact D;
+  constructor; assumption.
+Qed.
+
+Lemma num_loop_digits len lz : forall r ps st a a' c',
+  num_loop len lz r ps st a = Ok (a', c') -> all_digits (n_digits a) -> all_digits (n_digits a').
+Proof.
+  assert (STOP : forall st a c a' c', num_stop len st a c = Ok (a', c') -> a' = a).
+  { intros st a c a' c' H. unfold num_stop in H.
+    destruct st as [[|]| |[|]| | |[|]]; try (inversion H; reflexivity);
+      destruct (usub (pos c) _); cbn [obind] in H; try discriminate;
+      unfold fail in H; destruct (make_span _ _ _); discriminate. }
+  induction r as [|b r IH]; intros ps st a a' c' H D; cbn [num_loop] in H.
+  - apply STOP in H. subst. exact D.
+  - destruct (num_step lz st a b) as [st1 a1| |] eqn:S.
+    + eapply IH; [exact H|]. eapply num_step_digits; eassumption.
+    + destruct (usub (ps + 1) 2); cbn [obind] in H; try discriminate.
+      destruct (usub (ps + 1) 1); cbn [obind] in H; try discriminate.
+      unfold fail in H. destruct (make_span _ _ _); discriminate.
+    + apply STOP in H. subst. exact D.
+Qed.
+
+Theorem number_shape len start b0 c t c' : lex_number len start b0 c = Ok (t, c') ->
+  exists n, tok_kind t = TNumber n /\ all_digits (num_digits n) /\ num_digits n <> [] /\
+            (i64_min <= num_exp n <= i64_max)%Z.
+Proof.
+  intros H. unfold lex_number in H. destruct (is_digit b0) eqn:D0; [|discriminate]. cbn [negb] in H.
+  destruct (num_loop len (b0 =? 48) (rest c) (pos c) (NInt false) _) as [[a c1]| | |] eqn:L; try discriminate.
+  cbn [obind] in H.
+  pose proof (num_loop_digits _ _ _ _ _ _ _ _ L) as DG. cbn [n_digits] in DG.
+  specialize (DG ltac:(constructor; [exact D0|constructor])).
+  destruct (eff_exp a) as [e|] eqn:EE.
+  - unfold commit in H. destruct (make_span _ _ _); cbn [obind] in H; try discriminate. inversion H; subst.
+    eexists. split; [reflexivity|]. cbn [num_digits num_exp]. split; [apply Forall_rev, DG|]. split.
+    + (* at least the first digit *)
+      intros E. apply (f_equal (@length N)) in E. rewrite rev_length in E.
+      assert (LN : forall r ps st x x' cc, num_loop len (b0 =? 48) r ps st x = Ok (x', cc) ->
+                   (length (n_digits x) <= length (n_digits x'))%nat).
+      { induction r as [|b r IH]; intros ps st x x' cc HL; cbn [num_loop] in HL.
+        - unfold num_stop in HL. destruct st as [[|]| |[|]| | |[|]]; try (inversion HL; lia);
+            destruct (usub _ _); cbn [obind] in HL; try discriminate;
+            unfold fail in HL; destruct (make_span _ _ _); discriminate.
+        - destruct (num_step (b0 =? 48) st x b) as [st1 x1| |] eqn:S.
+          + apply IH in HL. assert ((length (n_digits x) <= length (n_digits x1))%nat); [|lia].
+            unfold num_step in S. destruct st as [us| |us| | |us];
+            repeat match type of S with (if ?c then _ else _) = _ => destruct c end;
+            inversion S; subst; cbn [n_digits push_digit set_expl set_sign length]; lia.
+          + destruct (usub (ps + 1) 2); cbn [obind] in HL; try discriminate.
+            destruct (usub (ps + 1) 1); cbn [obind] in HL; try discriminate.
+            unfold fail in HL. destruct (make_span _ _ _); discriminate.
+          + unfold num_stop in HL. destruct st as [[|]| |[|]| | |[|]]; try (inversion HL; lia);
+              destruct (usub _ _); cbn [obind] in HL; try discriminate;
+              unfold fail in HL; destruct (make_span _ _ _); discriminate. }
+      apply LN in L. cbn [n_digits length] in L. cbn [length] in E. lia.
+    + unfold eff_exp in EE. destruct (n_expl a) as [x|]; [|discriminate].
+      destruct (i64_max <? Z.of_N x)%Z; [discriminate|].
+      match type of EE with (if ?c then _ else _) = _ => destruct c eqn:RG end; [discriminate|].
+      inversion EE; subst. apply orb_false_iff in RG as [R1 R2].
+      apply Z.ltb_ge in R1, R2. lia.
+  - unfold fail in H. destruct (make_span _ _ _); discriminate.
+Qed.
